@@ -113,6 +113,20 @@ def explore_job(job):
             return outputs
 
         paths = []
+        cov = None
+        if os.environ.get("SYMX_COVERAGE"):
+            import sys as _sys
+            cov = set()
+            root = os.environ.get("VERIF_REPO", "/repo") + "/distance3d/"
+
+            def tracer(frame, event, arg):
+                fn = frame.f_code.co_filename
+                if not fn.startswith(root):
+                    return None
+                if event == "line":
+                    cov.add((fn[len(root):], frame.f_lineno))
+                return tracer
+            _sys.settrace(tracer)
         signal.signal(signal.SIGALRM, _alarm)
         gen = eng.explore(run)
         while True:
@@ -153,6 +167,12 @@ def explore_job(job):
             out["findings"] = fnd
             paths.append(out)
         st = eng.stats
+        if cov is not None:
+            import sys as _sys
+            _sys.settrace(None)
+            with open("/tmp/symx_cov_%d.txt" % os.getpid(), "a") as f:
+                for fn, ln in cov:
+                    f.write("%s:%d\n" % (fn, ln))
         return {"job": job, "ok": True, "paths": paths, "unexplored": eng.unexplored,
                 "queries": st.queries, "solver_s": st.solver_s, "unknown": st.unknown,
                 "by_kind": st.by_kind, "wall_s": time.time() - t0,
